@@ -273,6 +273,21 @@ def typestate(ctx, g, body, src_idx, dst_idx, rank_writers):
                     ret = '?'
                 continue
             if body.local_ty(l) != 'bool':
+                # a tuple / struct built from known flags (e.g. the `(newly_linked, region)` a helper returns), and moves of it
+                for k_ in [k_ for k_ in env if isinstance(k_, tuple) and k_[0] == l]:
+                    env.pop(k_)
+                if rv['k'] == 'aggr':
+                    for i_, o_ in enumerate(rv['ops']):
+                        oo = F.operand(o_)
+                        if oo[0] in ('c', 'm') and not oo[1][1] and env.get(oo[1][0]) is not None and body.local_ty(oo[1][0]) == 'bool':
+                            env[(l, i_)] = env[oo[1][0]]
+                        elif oo[0] == 'k' and oo[1].get('ty') == 'bool':
+                            env[(l, i_)] = oo[1].get('int') == '1'
+                elif rv['k'] == 'use':
+                    oo = F.operand(rv['op'])
+                    if oo[0] in ('c', 'm') and not oo[1][1]:
+                        for k_ in [k_ for k_ in env if isinstance(k_, tuple) and k_[0] == oo[1][0]]:
+                            env[(l, k_[1])] = env[k_]
                 continue
             val = None
             if rv['k'] == 'use':
@@ -281,6 +296,8 @@ def typestate(ctx, g, body, src_idx, dst_idx, rank_writers):
                     val = {'0': False, '1': True}.get(op[1].get('int'))
                 elif op[0] in ('c', 'm') and not op[1][1]:
                     val = env.get(op[1][0])
+                elif op[0] in ('c', 'm') and len(op[1][1]) == 1 and isinstance(op[1][1][0], tuple) and op[1][1][0][0] == 'f':
+                    val = env.get((op[1][0], op[1][1][0][1]))
             elif rv['k'] == 'un' and rv['uop'] == 'Not':
                 op = F.operand(rv['a'])
                 if op[0] in ('c', 'm') and not op[1][1] and env.get(op[1][0]) is not None:
@@ -1221,7 +1238,22 @@ def rule_graph_cycle(ctx):
                 v = d[3]['ak'].get('variant')
                 if v == 'Err':
                     po = ae.orig_operand(F.operand(d[3]['ops'][0]))
-                    kinds.add('Err' if ctx.base_call_bbs(po) == {fc.bb} else 'Err(other)')
+
+                    def from_search(os_, depth=0):
+                        """the error is the search's own: directly, or passed on by `?` (from_residual of the search's residual)"""
+                        if not os_:
+                            return False
+                        for o in os_:
+                            if o.kind != 'call':
+                                return False
+                            if o.key == fc.bb:
+                                continue
+                            c_ = ae.calls[o.key]
+                            if c_.qname == 'std::ops::FromResidual::from_residual' and depth < 3 and from_search(ae.orig_operand(c_.args[0]), depth + 1):
+                                continue
+                            return False
+                        return True
+                    kinds.add('Err' if from_search(po) else 'Err(other)')
                 else:
                     kinds.add(v)
             elif d[0] == 'call' and d[2].qname == 'std::ops::FromResidual::from_residual':
